@@ -17,7 +17,7 @@ import sys
 sys.path.insert(0, os.path.dirname(__file__))
 import bn  # noqa: E402
 
-OUT = "/verif/catalogue/features.json"
+OUT = os.path.join(os.path.dirname(os.path.dirname(os.path.abspath(__file__))), "catalogue", "features.json")
 
 
 def analyse(tt):
